@@ -96,11 +96,36 @@ PROPS = {
              "distinct = distinct (op,input) hashes",
              shards=(8, 16), n=(25, 400),
              trusted=["go-merkletree-sql proof (de)serialisation", "HashCR for 'any accepted answer tells the truth'"]),
+    "C19": P("cases = histories of 4-18 operations {origin serves a new version of a URL with a cache policy (max-age=3600/3/0, no-store, private, none, Expires+3600/-10 with Date, max-age+no-store), origin fails (404/500/transport error), "
+             "load, 5 virtual seconds pass} over 3 http(s) URLs, 3 ipfs URLs and unsupported schemes, for loader configurations {default memory cache, WithCacheEngine(nil), custom engine (virtual clock), embedded documents, "
+             "IPFS client and/or gateway with trailing slashes}; each load's document version and request count are compared with the model, and the version with the allowed set computed from the history by the harness; "
+             "non-trivial = a load after the origin changed or failed; distinct = distinct (op,input) hashes",
+             shards=(8, 16), n=(120, 2500),
+             trusted=["pquerna/cachecontrol decides storability and lifetime (oracle column: called directly on the same headers)",
+                      "time: the custom engine shifts expiry times (virtual clock); the default engine is exercised with lifetimes that do not depend on timing, plus real-time histories (2 s lifetime, 2.6 s sleep) in the thorough tier",
+                      "Cache-Control: no-cache with a lifetime is not in the alphabet (the loader reuses such responses without revalidation; the statement does not cover it)"]),
+    "C20": P("cases = randomized mixes on 2-64 goroutines (6-25 operations each): MerklizeJSONLD of one document whose context is fetched through the shared loader, proofs from one shared merklizer (verified), HashValue, loads of "
+             "warm / expiring (max-age=3 with a virtual clock advancing every 2 ms) / no-store / embedded / missing URLs through one shared loader and cache; harness built with -race; every result compared with the sequential oracle and "
+             "the model's expected value; non-trivial = every mix; distinct = distinct (op,input) hashes",
+             shards=(8, 16), n=(2, 40), race=True,
+             trusted=["absence of data races is OBSERVED by the Go race detector on the explored schedules, not proved: the Go memory model is outside any Lean model of this code",
+                      "the interleaving theorem covers the loader/cache logic at the granularity get / fetch / set"]),
 }
 
 NOT_APPLICABLE = {}
 
 MANIFEST_TEXT = {
+    "C19": dict(
+        text="Lean theorems (Gsp.Props.C19 over the loader state machine Gsp.Loader): CacheInv (every cached document was received earlier in a storable response with exactly that response's expiry; nothing received in the future; embedded URLs never "
+             "enter the mutable cache) holds initially, is preserved by every operation and hence along any history (inv_init, inv_step, inv_run); load_fresh - a returned document is the origin's current one, or a storable one whose lifetime has not "
+             "expired, or the embedded one; only_storable_received, failure_not_returned, embedded_no_request, embedded_never_overwritten, cache_disabled_always_requests, route_spec (http(s) -> HTTP, ipfs -> client else gateway else error, "
+             "other schemes rejected). Tie: real loaders.NewDocumentLoader with a scripted RoundTripper / IPFS client over generated histories vs the model (version and request count per load) and the allowed-set predicate.",
+        note="cachecontrol's classification is an oracle column; real time is replaced by a virtual clock in a custom CacheEngine (plus real-time histories in the thorough tier)."),
+    "C20": dict(
+        text="Lean theorem (Gsp.Props.C20): interleaving_deterministic - for any number of threads, any schedule of their atomic steps (cache read / request / cache write) and any passage of time, against a constant origin every load returns "
+             "exactly what a sequential execution returns (invariant: cached and in-flight documents are the origin's; embedded URLs are never fetched); merklize/proof/hash are pure functions in the model. "
+             "Observation: the harness is built with -race and runs randomized mixes on 2-64 goroutines with cold, warm, expiring, non-storable and embedded entries; every result is compared with the sequential oracle; any race report is a violation.",
+        note="PARTIAL: data-race freedom is observed by the race detector on the explored schedules, not proved (Go memory model)."),
     "C06": dict(
         text="Lean theorems (Gsp.Props.C06 over Gsp.Claim): the binding check passes only if re-deriving the claim from the credential with the options carried by the proof's claim reproduces it exactly (bind_sound); the proof's claim is then "
              "the closed form of this credential - its type hash, expiration, subject identifier and, for merklized schemas, its Merkle root, for serialized ones its designated field encodings (bind_pins_credential, via C05 decode_encode); "
